@@ -151,6 +151,18 @@ def r13a(ctx, run):
                                   ("bool", Variant("Ty::Bool"), Variant("Ty::Bool")), ("str", Variant("Ty::String"), Variant("Ty::String"))):
             expect("a %s over %s where the plain type is expected" % (kind.lower(), uname), "unwrap-found:%s" % kind, mk(kind, 1, under), exp, False,
                    "the nominal type would be accepted as its underlying type")
+    # ... and behind one constructor: a pointer / slice / array of the nominal type is not a pointer / slice / array of its underlying type either, and
+    # a sized array of it does not coerce to a slice of the underlying type
+    for kind in ("Distinct", "EnumVariant"):
+        n_ = mk(kind, 1, I32)
+        for cname, wrap_found, wrap_exp in (
+                ("^T", lambda t: Variant("Ty::Pointer", {"mutable": False, "sub_ty": t}), lambda t: Variant("Ty::Pointer", {"mutable": False, "sub_ty": t})),
+                ("[]T", lambda t: Variant("Ty::Slice", {"sub_ty": t}), lambda t: Variant("Ty::Slice", {"sub_ty": t})),
+                ("[3]T", lambda t: Variant("Ty::ConcreteArray", {"size": 3, "sub_ty": t}), lambda t: Variant("Ty::ConcreteArray", {"size": 3, "sub_ty": t})),
+                ("[3]T -> []T", lambda t: Variant("Ty::ConcreteArray", {"size": 3, "sub_ty": t}), lambda t: Variant("Ty::Slice", {"sub_ty": t})),
+                ("?T", lambda t: Variant("Ty::Optional", {"sub_ty": t}), lambda t: Variant("Ty::Optional", {"sub_ty": t}))):
+            expect("%s of a %s over i32 where %s of i32 is expected" % (cname.split(" -> ")[0], kind.lower(), cname.split(" -> ")[-1]), "unwrap-found-nested:%s:%s" % (kind, cname),
+                   wrap_found(n_), wrap_exp(I32), False, "behind %s the nominal type would be accepted as its underlying type" % cname)
     # struct with a plain member vs anonymous struct etc. are C12 territory; record the arms that exist
     seen = set()
     for fp, ep, arm in rows:
